@@ -144,6 +144,11 @@ def main(run):
     run.cov['eq_roots_walked'] = n_roots
     if n_roots < 30:
         run.violation('floor|eq_roots', f'only {n_roots} eq roots in the instance graph')
+    # equality between two different library types (owned vs borrowed, full vs reference) is the documented equivalence of their common
+    # borrowed type applied to total views of both operands — never the plain-text comparison
+    from .. import crosscmp
+    crosscmp.check(run, P, ctx, ('PartialEq',))
+    run.floor('cross_type_comparisons', 50, 'PartialEq impls between two different library types')
     n = run.cov.get('eq_impls', 0) + run.cov.get('parts_structs', 0) + run.cov.get('lemmas', 0) + run.cov.get('panic_sites', 0)
     return run.finish('other', {
         'explanation': 'documented key table vs. the projections actually compared by every eq; field types of the decomposition structs; '
